@@ -37,6 +37,39 @@ def variants(rnd, segs):
     return out
 
 
+def converted_timestamps(data, nptdms):
+    """the timestamp channels and properties of a file read the DEFAULT way (raw_timestamps=False: converted to datetime64[us]),
+    eagerly, through the lazy full read and through the chunk stream: {path: [microseconds...] or the kind of error}"""
+    import io
+    import numpy as np
+    out = {}
+
+    def us(arr):
+        return [int(x) for x in np.asarray(arr).astype("datetime64[us]").astype("int64")]
+    try:
+        fe = nptdms.TdmsFile.read(io.BytesIO(data))
+        fl = nptdms.TdmsFile.open(io.BytesIO(data))
+    except Exception as ex:  # noqa
+        return {"<read>": type(ex).__name__}
+    try:
+        for g in fe.groups():
+            for ch in g.channels():
+                for k, v in ch.properties.items():
+                    if isinstance(v, np.datetime64):
+                        out[ch.path + "#" + k] = us([v])
+                if ch.data_type is None or ch.data_type.enum_value != 0x44:
+                    continue
+                for label, fn in (("eager", lambda: us(ch[:])), ("lazy", lambda: us(fl[g.name][ch.name][:])),
+                                  ("chunks", lambda: [x for c in fl[g.name][ch.name].data_chunks() for x in us(c[:])])):
+                    try:
+                        out[ch.path + " " + label] = fn()
+                    except Exception as ex:  # noqa
+                        out[ch.path + " " + label] = type(ex).__name__
+    finally:
+        fl.close()
+    return out
+
+
 def run(ctx):
     nptdms = ctx.nptdms()
     model = ctx.get_model() if ctx.build_ok else None
@@ -71,14 +104,16 @@ def run(ctx):
                 # the lazy API decodes through other code paths (per-channel reads of contiguous / interleaved / DAQmx chunks)
                 from props.C02 import lazy_content
                 c = dict(c, lazy=lazy_content(data, nptdms))
+                if any(o["ty"] == 0x44 for o in e["content"]):
+                    c["converted"] = converted_timestamps(data, nptdms)
             if ref is None:
                 ref = (mode, c, data)
             elif c != ref[1]:
                 what = "%s-endian encoding reads differently from the little-endian encoding of the same content" % mode
                 if isinstance(c, dict) and isinstance(ref[1], dict):
-                    for k in ("objects", "channels", "groups", "lazy"):
+                    for k in ("objects", "channels", "groups", "lazy", "converted"):
                         if c.get(k) != ref[1].get(k):
-                            what += " (%s: %s vs %s)" % (k, str(c[k])[:160], str(ref[1][k])[:160])
+                            what += " (%s: %s vs %s)" % (k, str(c.get(k))[:160], str(ref[1].get(k))[:160])
                             break
                 else:
                     what += ": %s vs %s" % (str(c)[:100], str(ref[1])[:100])
@@ -90,7 +125,7 @@ def run(ctx):
             nontrivial += 1
         if len(samples) < 2 and len(segs) <= 2:
             samples.append(dict(encoding=gen_files.to_line(segs)))
-        if len(violations) >= 5 or len(disagreements) >= 20:
+        if len(violations) >= 5 or len(disagreements) >= ctx.dis_limit:
             break
         if ctx.tier == "quick" and ctx.elapsed() > 45:
             break
